@@ -217,6 +217,21 @@ def merge_{tag}({params}) -> bool:
 def replay_merge_{tag}({", ".join(ss)}):
     return replay_kids({kids})
 ''')
+    for nk in (2, 3):
+        ps = [f"s{i}" for i in range(nk)]
+        pre_u = " and ".join(f"len({x}) == 1 and {x}[0] in ACH" for x in ps)
+        out.append(f'''
+def url_{nk}({", ".join(x + ": str" for x in ps)}) -> bool:
+    """
+    pre: {pre_u}
+    post: _
+    """
+    return url_args_ok([{", ".join(ps)}])
+
+
+def replay_url_{nk}({", ".join(ps)}):
+    return replay_url([{", ".join(ps)}])
+''')
     for L in range(0, 3 if quick else 4):
         pre = " and ".join([f"len(v) == {L}"] + [f"v[{i}] in ACH" for i in range(L)])
         out.append(f'''
@@ -249,7 +264,8 @@ def run(rep: C.Report) -> None:
     xh.check_harness(
         rep,
         H,
-        {"^attrs_": dict(name="Ob5 no placeholder character survives in attribute values when a node is popped", functions=["parser.py:_parser_pop"], bounds=f"attribute value of 0..{2 if quick else 3} symbolic chars over {{a, space, placeholder}}; HTML element and table row"),
+        {"^url_": dict(name="Ob6 the URL part of an external link is merged and finalized when it becomes an argument", functions=["parser.py:text_fn (URL whitespace branch)"], bounds="2..3 string children of one symbolic char over {a, space, placeholder}"),
+         "^attrs_": dict(name="Ob5 no placeholder character survives in attribute values when a node is popped", functions=["parser.py:_parser_pop"], bounds=f"attribute value of 0..{2 if quick else 3} symbolic chars over {{a, space, placeholder}}; HTML element and table row"),
          "^merge_": dict(name="Ob4 merge kernel: no empty string, no adjacent strings, no placeholder character, nodes kept", functions=["parser.py:_parser_merge_str_children", "core.py:Wtp._finalize_expand"], bounds=f"children lists of {3 if quick else 4} entries (every node/string skeleton), strings <= {1 if quick else 2} symbolic chars over {{a, newline, nowiki-, bracket-placeholders}}")},
         timeout=60 if quick else 300,
         src=src,
